@@ -63,6 +63,28 @@ Proof.
 Qed.
 Print Assumptions C18_bad_index_and_unknown_route.
 
+(* modRoute / modDest: an update one of whose options is not acceptable changes nothing and reports an error; an accepted update
+   changes the filter of the named route or destination only — the lists themselves are what they were *)
+Theorem C18_rejected_modification_changes_nothing :
+  forall v k i upd,
+    admin_step v (ModRoute k upd false) = (v, true) /\ admin_step v (ModDest k i upd false) = (v, true).
+Proof.
+  intros v k i upd. split; cbn [admin_step]; destruct (route_dests (v_routes v) k); try reflexivity.
+  rewrite Bool.andb_false_r. reflexivity.
+Qed.
+Print Assumptions C18_rejected_modification_changes_nothing.
+
+Theorem C18_modification_touches_filters_only :
+  forall v k i upd valid o, o = ModRoute k upd valid \/ o = ModDest k i upd valid ->
+    let v' := fst (admin_step v o) in
+    v_black v' = v_black v /\ v_rw v' = v_rw v /\ v_aggs v' = v_aggs v /\ v_routes v' = v_routes v.
+Proof.
+  intros v k i upd valid o [-> | ->]; cbn [admin_step]; destruct (route_dests (v_routes v) k); cbv zeta; cbn [fst]; auto.
+  - destruct valid; cbn [fst with_filters v_black v_rw v_aggs v_routes]; auto.
+  - destruct (Nat.ltb i (length l) && valid); cbn [fst with_filters v_black v_rw v_aggs v_routes]; auto.
+Qed.
+Print Assumptions C18_modification_touches_filters_only.
+
 (* the delete as it was before the repair (shift inside the shared array) is not atomic: the old header changes *)
 Example C18_delete_aliasing_refuted :
   let h0 : heap N := [[1; 2; 3]%N] in
